@@ -134,11 +134,33 @@ class CoroutineProcessor(Processor):
         if state != CoroutineState.TERMINATED:
             raise ValueError('Cannot start the same generator twice')
 
+        # A killed generator is reported as TERMINATED at once, but it
+        # stays queued until the next frame meets it. If it is started
+        # again before that, apply the pending kill right now, so that
+        # it is never queued twice (and an old wait does not survive).
+        if generator in self._kill_queue:
+            if generator.gi_running:
+                raise ValueError('Cannot restart a generator from itself')
+            self._apply_kill(generator)
+
         self._active_queue.append(generator)
         self._generators[generator] = None
         promise = CoroutinePromise(generator, self)
         self._promises[generator] = promise
         return promise
+
+    def _apply_kill(self, generator: Generator):
+        """Apply a pending kill: forget the given generator entirely."""
+        self._kill_queue.discard(generator)
+        waiting_gen = self._generators.pop(generator)
+        if waiting_gen is None:
+            self._active_queue.remove(generator)
+        else:
+            # Remove by identity (equality only compares wait times)
+            self._wait_queue = [waiting for waiting in self._wait_queue
+                                if waiting is not waiting_gen]
+            heapq.heapify(self._wait_queue)
+        del self._promises[generator]
 
     def kill(self, generator: Generator):
         """Stop and remove a coroutine, given the generator.
